@@ -15,11 +15,13 @@ import EqsigVerif.Handlers.Misc
 import EqsigVerif.Handlers.Prelude
 import EqsigVerif.Handlers.PreludeE
 import EqsigVerif.Handlers.PreludeP
+import EqsigVerif.Handlers.Butter
+import EqsigVerif.Handlers.Single2
 /-! table of all driver handlers -/
 namespace EqsigVerif.Handlers
 open EqsigVerif.Wire
 
 def table : List (String × Handler) :=
-  Prelude.handlers ++ PreludeE.handlers ++ PreludeP.handlers ++ Displacements.handlers ++ Sdof.handlers ++ Fns.handlers ++ DesignSpectra.handlers ++ Loader.handlers ++ SignalSM.handlers ++ Fourier.handlers ++ TimeStep.handlers ++ Surface.handlers ++ Misc.handlers ++ Peaks.handlers ++ Switched.handlers ++ PowerLaw.handlers ++ Im.handlers.map (fun (p : String × Handler) => (if p.1 = "peaks" then "pgx" else p.1, p.2))
+  Butter.handlers ++ Single2.handlers ++ Prelude.handlers ++ PreludeE.handlers ++ PreludeP.handlers ++ Displacements.handlers ++ Sdof.handlers ++ Fns.handlers ++ DesignSpectra.handlers ++ Loader.handlers ++ SignalSM.handlers ++ Fourier.handlers ++ TimeStep.handlers ++ Surface.handlers ++ Misc.handlers ++ Peaks.handlers ++ Switched.handlers ++ PowerLaw.handlers ++ Im.handlers.map (fun (p : String × Handler) => (if p.1 = "peaks" then "pgx" else p.1, p.2))
 
 end EqsigVerif.Handlers
